@@ -651,3 +651,26 @@ func TestC10ManySamePTS(t *testing.T) {
 	}
 	hx.Rec("C10").Subspace("12, 21, 22 and 26 distinct descriptors on ONE signal time (per-call allocation budget 4 MiB) followed by an immediate repeat of the last (an opening one, and a closing one)")
 }
+
+// long open lists: hundreds of descriptors that do not close one another stay open (counts around the width of a one-byte
+// counter), then one descriptor closes them all
+func TestC10LongOpenList(t *testing.T) {
+	c10Rule()
+	if !hx.FirstShard() {
+		t.Skip("runs on shard 0")
+	}
+	for _, n := range []int{255, 256, 257, 300} {
+		var ops []OpC10
+		for i := 0; i < n; i++ {
+			ops = append(ops, OpC10{Kind: "process", Type: []byte{0x34, 0x36}[i%2], Event: uint32(1 + i), Decoded: i%5 == 0})
+			if i%50 == 49 {
+				ops = append(ops, OpC10{Kind: "open"}, OpC10{Kind: "reprocess"})
+			}
+		}
+		ops = append(ops, OpC10{Kind: "open"}, OpC10{Kind: "process", Type: 0x11, Event: 1}, OpC10{Kind: "reprocess"}, OpC10{Kind: "open"})
+		if f := propC10.EvalFast(CaseC10{Ops: ops}, hx.HashInts(97, uint64(n))); f != nil {
+			t.Fatalf("VIOLATION-CANDIDATE property=C10 key=%s: %s", f.Key, f.Msg)
+		}
+	}
+	hx.Rec("C10").Subspace("255, 256, 257 and 300 provider / distributor placement opportunity starts on as many signal times, all open at once, then a program end that closes them all")
+}
